@@ -45,7 +45,7 @@ ASSUMPTIONS = [
     "binary operations between two *different* typed inputs (a + other, channel-wise cat with another batch) are outside the "
     "vocabulary: the statement does not say whose grid a mixed entry should carry; `other` is used for dim-0 cat/stack/append",
     "C19_aligned_partial covers the operation classes of `goodOp` (Proofs/Dispatch.lean; listed in the docstring of the "
-    "theorem, incl. every class repaired in /repo: 31c6369, a040c96, e158d15, e37fd36, 018b42a, 5463a8b, d25ad21, PENDING-F19); "
+    "theorem, incl. every class repaired in /repo: 31c6369, a040c96, e158d15, e37fd36, 018b42a, 5463a8b, d25ad21, 05e9301 / c94e057); "
     "no refutation is left, the former witnesses are replayed on the implementation as regression cases (stream witnesses); "
     "still outside goodOp (C19_demote proves count/shape for them, provenance by correspondence + oracle only): negative or "
     "batch-dim literals for torch.narrow/select/reductions/cat/split*, tensor_split(int), stack, expand/repeat/reshape/"
@@ -1238,12 +1238,12 @@ _F1 = dict(_F3, n=1)
 WITNESSES = [
     # (name, case, expected finding key; None = must hold: witness of a defect repaired by a fix: commit in /repo,
     #  kept as a regression case — the positive theorem of Props/C19.lean covers its class)
-    ("flip_dim0", {"input": _B2, "other": None, "ops": [{"op": "flip", "dims": [0]}]}, None),   # C19:torch.flip:dim0 before PENDING-F19
-    ("roll_dim0", {"input": _B2, "other": None, "ops": [{"op": "roll", "shifts": [1], "dims": [0], "scalar": True}]}, None),   # C19:torch.roll:dim0 before PENDING-F19
+    ("flip_dim0", {"input": _B2, "other": None, "ops": [{"op": "flip", "dims": [0]}]}, None),   # C19:torch.flip:dim0 before 05e9301 / c94e057
+    ("roll_dim0", {"input": _B2, "other": None, "ops": [{"op": "roll", "shifts": [1], "dims": [0], "scalar": True}]}, None),   # C19:torch.roll:dim0 before 05e9301 / c94e057
     ("index_select_perm", {"input": _B2, "other": None, "ops": [{"op": "isel", "dim": 0, "idx": [1, 0]}]},
-     None),   # C19:index_select:dim0-perm before PENDING-F19
+     None),   # C19:index_select:dim0-perm before 05e9301 / c94e057
     ("permute_batch_channel", {"input": dict(_B2, c=2), "other": None, "ops": [{"op": "transpose", "d0": 0, "d1": 1}]},
-     None),   # C19:permute:batch-moved before PENDING-F19
+     None),   # C19:permute:batch-moved before 05e9301 / c94e057
     ("roll_flattened", {"input": dict(_B2, c=2), "other": None, "ops": [{"op": "roll", "shifts": [3], "dims": None}]}, None),
     ("transpose_spatial", {"input": _B2, "other": None, "ops": [{"op": "transpose", "d0": 2, "d1": 3}]}, None),
     # empty batch (N = 0): `ndim == 0` skips the flip / roll / index_select branches, the empty grid list is kept
